@@ -67,6 +67,22 @@ TEXT = {
             'For 1-3 processes with ports from the topology grammar that share variables, EVERY subset of resolved nodes is given an explicit initial value and the store is built through Engine(...) and generate_state(...); every node must hold explicit-else-default at the node named by the reference resolver; named glob children must exist with declared defaults; conflicting _value/_units/_serializer declarations must raise ValueError; Composite.initial_state()/default_state() are compared with per-process values mapped through the resolver.',
             'Sharers declare equal defaults; differing defaults are merged silently by design.',
             'bounded exhaustive enumeration of composites x initial-state subsets against a reference resolver'),
+    'C07': ('model_checking', '3/C07',
+            'Explorer B (BFS over structural histories with canonical-state merging, each history replayed on a fresh real Engine) plus the C06 grammar with undeclared extras: at EVERY calculate_timestep/update_condition/next_update call of the observer its states argument is compared with an independent projection of the whole-hierarchy snapshot taken in the same callback.',
+            'Snapshot read inside the observer callback; canonical form drops values; observer process (ts 1, 2) or dependent step.',
+            'explicit-state BFS over operation histories on the real engine with a per-callback projection invariant'),
+    'C09': ('model_checking', '3/C09',
+            'Explorer B: BFS over histories of _add/_delete/_generate/_divide/_move/clear and pairs, by a step or a process, from three initial hierarchies; every history is executed on a fresh real Engine and after every tick the value tree is compared with the reference hierarchy and node identities outside the footprint (and of moved subtrees) are compared.',
+            'Canonical-state merging keeps shape/keys/kind; compartment processes inert or idle; K6 (tuple-path _delete) is a known finding.',
+            'explicit-state BFS over operation histories with a reference hierarchy model and an identity frame condition'),
+    'C10': ('model_checking', '3/C10',
+            'Explorer B x victim status (idle / due / in flight via timesteps 1 and 3) x issuer x listing order: the multiset of (path, time) process invocations and the step runs of every phase are compared with the schedule derived from the reference hierarchy; the published composite is compared with the store and with the Composite the engine was built from; a rebuilt engine must continue with the same rows.',
+            'Steps are idempotent derivations; K2 (_move of a busy process) is a known finding.',
+            'explicit-state BFS over operation histories with a reference schedule, a published-composite invariant and a rebuilt-engine differential'),
+    'C16': ('exploration', '3/C16',
+            'Four template composers x embedding paths x ALL merge sequences up to length 3/4 x three engine entry points x schema overrides; union model for merges, deep-equality snapshots of merged-in and unrelated composites (then and later), trajectory equality across entry points and re-rooted embeddings.',
+            'Entry points compared on an explicit initial state; K5 (no explicit state) is a known finding.',
+            'bounded exhaustive enumeration of merge sequences and entry points with a union model and differential trajectories'),
 }
 
 LEVEL_TEXT = {}
